@@ -80,6 +80,7 @@ def compare(label, fid, A, B, order, bound, t0):
 def hierarchy_graphs(tier):
     gs = []
     G = nx.Graph(); G.add_edges_from([(0, 1), (1, 2), (2, 3), (1, 3), (3, 4), (4, 5), (5, 0), (2, 5)]); gs.append(('degrees 2,3,3,3,2,3', G))
+    G = nx.Graph(); G.add_edges_from([(0, 1), (1, 2), (2, 3), (3, 0), (0, 0), (2, 4)]); gs.append(('a self-loop (degrees 4,2,3,2,1)', G))
     if tier != 'quick':
         G = nx.Graph(); G.add_edges_from([(0, 1), (0, 2), (0, 3), (1, 2), (3, 4), (4, 5)]); gs.append(('degrees 3,2,2,2,2,1', G))
     return gs
